@@ -11,6 +11,7 @@ pub mod props;
 pub mod refcodec;
 pub mod rng;
 pub mod runner;
+pub mod smast;
 pub mod sout;
 pub mod trace_sub;
 
